@@ -714,6 +714,50 @@ def check(ctx: Ctx) -> list[RuleResult]:
         else:
             r7.ok({"decoder": f.short, "unaligned_pattern_searches": 0})
     out.append(r7)
+
+    # ---- R8 ---------------------------------------------------------------------------
+    # a codec is a function of its arguments: (i) it does not read the environment - the wall clock, the host's timezone/DST rules -
+    # or the same value would encode differently on another host or another day; (ii) an argument that is only known to be iterable
+    # is consumed once - a second pass over a one-shot iterator sees nothing and silently encodes zeros
+    r8 = RuleResult("R8", "codecs are functions of their arguments", "no clock/timezone read in a hex_* codec; an argument not pinned to a re-iterable type is iterated at most once", min_instances=10)
+    ENV = {"time.localtime", "time.mktime", "time.time", "time.tzname", "time.timezone", "time.altzone", "time.daylight", "dt.now", "datetime.now", "dt.today", "date.today", "dt.utcnow", "time.gmtime"}
+    ENV_ATTR = {"astimezone", "timestamp", "fromtimestamp", "utcoffset", "dst"}
+    CONSUMERS = {"list", "tuple", "sum", "enumerate", "reversed", "sorted", "any", "all", "set", "max", "min", "zip", "map", "iter"}
+    codecs = [f for f in repo.functions_in(f"{H}.") if f.name.startswith(("hex_to_", "hex_from_")) and f.parent is None]
+    for f in codecs:
+        r8.instances += 1
+        r8.nontrivial += 1
+        bad8 = []
+        scope8 = [f] + list(f.nested.values())
+        for g in scope8:
+            for n in own_nodes(g.node):
+                if isinstance(n, ast.Call) and (norm(n.func) in ENV or (isinstance(n.func, ast.Attribute) and n.func.attr in ENV_ATTR)):
+                    bad8.append((n, f"reads the environment (`{norm(n)[:50]}`): the result depends on the host's clock/timezone, not only on the value"))
+                elif isinstance(n, ast.Attribute) and norm(n) in ENV and not isinstance(getattr(n, "parent", None), ast.Call):
+                    bad8.append((n, f"reads the environment (`{norm(n)}`)"))
+        params8 = [a.arg for a in f.node.args.args]
+        for prm in params8:
+            pinned = any(isinstance(st, ast.If) and any(isinstance(b, ast.Raise) for b in st.body) and any(isinstance(c, ast.Call) and norm(c.func) == "isinstance" and len(c.args) == 2 and norm(c.args[0]) == prm and any(t in norm(c.args[1]) for t in ("list", "tuple", "Sequence")) and isinstance(getattr(c, "parent", None), ast.UnaryOp) and isinstance(c.parent.op, ast.Not) for c in ast.walk(st.test)) for st in f.node.body)  # type: ignore[attr-defined]
+            if pinned:
+                continue
+            uses = []
+            for n in own_nodes(f.node):
+                if isinstance(n, ast.Call) and isinstance(n.func, ast.Name) and n.func.id in CONSUMERS and any(isinstance(a, ast.Name) and a.id == prm for a in n.args):
+                    uses.append(n)
+                elif isinstance(n, (ast.For, ast.comprehension)) and isinstance(n.iter, ast.Name) and n.iter.id == prm:
+                    uses.append(n)
+            if len(uses) >= 2:
+                # an unconditional re-binding of the name between the two passes makes the second pass run over something else
+                lines = sorted(getattr(u, "lineno", getattr(getattr(u, "iter", None), "lineno", 0)) for u in uses)
+                rebound = any(isinstance(st, ast.Assign) and any(isinstance(t, ast.Name) and t.id == prm for t in st.targets) and lines[0] < st.lineno <= lines[-1] for st in f.node.body)
+                if not rebound:
+                    bad8.append((uses[-1], f"iterates its `{prm}` argument more than once although it is not pinned to a list/tuple: a one-shot iterator is empty on the second pass and encodes as zeros"))
+        if bad8:
+            for n, why in bad8[:2]:
+                r8.fail(f"{f.short}:{'env' if 'environment' in why else 'iterated-twice'}", f.loc(n), f"{f.short} {why}")
+        else:
+            r8.ok({"codec": f.short, "pure": True})
+    out.append(r8)
     return out
 
 
